@@ -806,6 +806,16 @@ class ContentElement(TTMLElement):
       if self.ttml_class.has_region:
         self.process_region_property(xml_elem)
 
+      # xml:id (a region received its id when it was created)
+
+      if self.model_element is not None and not issubclass(self.ttml_class, RegionElement):
+        xml_id = imsc_attr.XMLIDAttribute.extract(xml_elem)
+        if xml_id is not None:
+          try:
+            self.model_element.set_id(xml_id)
+          except TypeError:
+            LOGGER.error("Invalid xml:id value")
+
       # temporal processing. Sequential time containers are converted to parallel time containers since the data model does not
       # support the former.
 
